@@ -6,6 +6,7 @@ import Req.H3.Frame
 import Req.H3.Fields
 import Req.H2.FieldsX
 import Req.H2.WriteBlock
+import Req.H2.FrameRfc
 import Req.Driver.WireUtil
 /-! Driver lanes of C05 (HTTP/2 framer, QUIC varints, HTTP/3 frames/SETTINGS/field sections). -/
 namespace Req.Driver.L.C05
@@ -448,10 +449,26 @@ def laneWBlock : List String → String
   | _ => "bad-op"
 end wblock
 
+/-! ### the RFC 9113 §6 verdict on one received frame -/
+section verdict
+open Req.H2.Frame
+
+/-- `c05h2verdict <type> <flags> <streamID (31 bit)> <payload>` → `accept` | error class. -/
+def laneH2Verdict : List String → String
+  | [t, f, s, p] => match t.toNat?, f.toNat?, s.toNat?, decodeHex p with
+    | some t, some f, some s, some p =>
+      match Rfc.verdict ⟨p.length, t, f, s⟩ p with
+      | .accept => "accept"
+      | .reject e => showRErr e
+    | _, _, _, _ => "bad-op"
+  | _ => "bad-op"
+end verdict
+
 def lanes : List (String × (List String → String)) := [
   ("c05emit", laneEmit),
   ("c05reqsec", laneReqSec),
   ("c05wblock", laneWBlock),
+  ("c05h2verdict", laneH2Verdict),
   ("c05vappend", laneVAppend),
   ("c05vlen", laneVLen),
   ("c05vappendlen", laneVAppendLen),
